@@ -56,6 +56,71 @@ def strategy(tier):
     return _case()
 
 
+def exhaustive(tier):
+    # predictions on long screens / with wide embeddings (rows x embedding size in the millions), described by parameters
+    for rows, D in ([(4099, 1024), (70001, 64)] if tier == "quick" else [(4099, 1024), (70001, 64), (524291, 8), (1000003, 5)]):
+        for kind in ("additive", "interaction"):
+            yield {"kind_big": kind, "rows": rows, "D": D, "seed": rows + D}
+
+
+def _check_big(case):
+    """every row of a long screen against the closed form evaluated directly (vectorised in float64), plus subset = whole on the tail"""
+    rows, D, kind = case["rows"], case["D"], case["kind_big"]
+    r = np.random.default_rng(case["seed"])
+    ns, nt = 7, 12
+    tm, sm = S.space_mappings(ns, nt)
+    sidx = r.integers(0, ns, size=rows)
+    t1 = r.integers(-1, nt, size=rows)
+    t2 = r.integers(-1, nt, size=rows)
+    nm = lambda t: np.where(t < 0, "ctl", np.char.add("t", (t // 2).astype(str)))
+    ds = lambda t: np.where(t < 0, 0.0, np.where(t % 2 == 0, 1.0, 2.0))
+    from batchie.data import Screen
+
+    screen = Screen(
+        treatment_names=np.stack([nm(t1), nm(t2)], axis=1).astype(str),
+        treatment_doses=np.stack([ds(t1), ds(t2)], axis=1),
+        sample_names=np.char.add("s", sidx.astype(str)).astype(str),
+        plate_names=np.char.add("p", (np.arange(rows) % 50).astype(str)).astype(str),
+        control_treatment_name="ctl",
+        treatment_mapping=tm,
+        sample_mapping=sm,
+    )
+    sid = np.asarray(screen.sample_ids).astype(int)
+    tid = np.asarray(screen.treatment_ids).astype(int)
+    W = r.normal(size=(ns, D)) / np.sqrt(D)
+    V2 = r.normal(size=(nt, D))
+    if kind == "additive":
+        p = {"kind": "additive", "W": W.tolist(), "W0": r.normal(size=ns).tolist(), "V2": V2.tolist(), "V1": r.normal(size=(nt, D)).tolist(), "V0": r.normal(size=nt).tolist(), "alpha": 0.25, "precision": 2.0}
+    else:
+        p = {"kind": "interaction", "W": W.tolist(), "V2": V2.tolist(), "precision": 2.0, "table": [[c_, t_, 1.0 if t_ == -1 else 0.5] for c_ in range(ns) for t_ in range(-1, nt)]}
+    theta = S.build_theta(p)
+    a, b = tid[:, 0], tid[:, 1]
+    both = (a >= 0) & (b >= 0)
+    exp = np.zeros(rows)
+    exp[both] = np.einsum("ij,ij,ij->i", W[sid[both]], V2[a[both]], V2[b[both]])
+    if kind == "additive":
+        V1, V0, W0 = np.array(p["V1"]), np.array(p["V0"]), np.array(p["W0"])
+        exp += p["alpha"] + W0[sid]
+        for col in (a, b):
+            m = col >= 0
+            exp[m] += V0[col[m]] + np.einsum("ij,ij->i", W[sid[m]], V1[col[m]])
+    with np.errstate(all="ignore"):
+        got = np.asarray(theta.predict_conditional_mean(screen), dtype=float)
+        require(got.shape == (rows,), "big.shape", "prediction does not have one entry per experiment")
+        bad = np.where(np.abs(got - exp) > 1e-8 * (1 + np.abs(exp)))[0]
+        require(bad.size == 0, "big.mean.closed_form", lambda: "%d experiments x embedding size %d (%s sample): %d rows differ from the closed form, first at row %d: %r vs %r" % (rows, D, kind, bad.size, int(bad[0]), float(got[bad[0]]), float(exp[bad[0]])))
+        tail = np.zeros(rows, dtype=bool)
+        tail[-37:] = True
+        sub = np.asarray(theta.predict_conditional_mean(screen.subset(tail)), dtype=float)
+        require(_close(sub, got[tail], rtol=1e-9), "big.subset_tail", "the last rows predicted as a subset differ from their whole-screen entries")
+        via = np.asarray(theta.predict_viability(screen), dtype=float)
+        if kind == "additive":
+            require(bool(np.allclose(via, np.clip(expit(got), 0.01, 0.99), rtol=1e-12, atol=0)), "big.viability.logistic_clip", "viability is not clip(expit(mean)) on a long screen")
+        else:
+            require(bool(np.all((via >= 0.01) & (via <= 0.99))), "big.viability.range", "viability outside [.01,.99] on a long screen")
+    return {"nontrivial": True, "labels": ["big", kind, "rows*D>=2^%d" % int(np.log2(rows * D))], "counts": {"big_rows": rows}}
+
+
 def _close(a, b, scale=None, rtol=1e-12):
     a = np.asarray(a, dtype=float)
     b = np.asarray(b, dtype=float)
@@ -123,6 +188,8 @@ def _oracle_mean(p, sid, tid):
 
 
 def check_case(case):
+    if "kind_big" in case:
+        return _check_big(case)
     from batchie.models import main as mm
 
     sc = case["screen"]
